@@ -272,3 +272,42 @@ Proof.
   - constructor.
   - inv Fa. cbn [env_action map3]. constructor; [apply unscale_in_bounds; assumption|]. apply IH; [cbn in L; lia | assumption].
 Qed.
+
+(* ------------------------------------------------------------------ gSDE resampling cadence *)
+
+Lemma frag_sde_guard u f j : onp_sde_guard u f j = sde_resample u f j /\ onp_sde_start_guard u = u.
+Proof. split; reflexivity. Qed.
+
+Theorem sde_positions_spec u f : forall k j x,
+  In x (sde_positions u f k j) <-> (j <= x < j + Z.of_nat k /\ sde_resample u f x = true).
+Proof.
+  induction k as [|k IH]; intros j x.
+  - cbn. split; [tauto | intros [H _]; lia].
+  - cbn [sde_positions]. rewrite in_app_iff, IH. split.
+    + intros [H|H].
+      * destruct (sde_resample u f j) eqn:E; [|destruct H]. destruct H as [<-|[]]. split; [lia | exact E].
+      * destruct H as [H1 H2]. split; [lia | exact H2].
+    + intros [H1 H2]. destruct (Z.eq_dec x j) as [->|N].
+      * left. rewrite H2. left. reflexivity.
+      * right. split; [lia | exact H2].
+Qed.
+
+(* inside a rollout the noise is resampled exactly at the step indices that are multiples of sde_sample_freq (> 0), and never
+   when sde_sample_freq <= 0 or gSDE is off *)
+Theorem sde_resample_iff u f j :
+  sde_resample u f j = true <-> u = true /\ 0 < f /\ exists q, j = q * f.
+Proof.
+  unfold sde_resample. rewrite !andb_true_iff, Z.ltb_lt, Z.eqb_eq. split.
+  - intros [[A B] C]. repeat split; auto. exists (j / f). pose proof (Z.div_mod j f). lia.
+  - intros (A & B & q & ->). repeat split; auto. apply Z_mod_mult.
+Qed.
+
+Theorem sde_calls_spec u f k x :
+  In x (sde_calls u f k) <-> (u = true /\ x = 0) \/ (0 <= x < Z.of_nat k /\ sde_resample u f x = true).
+Proof.
+  unfold sde_calls. rewrite in_app_iff, sde_positions_spec. destruct u; cbn [In]; split.
+  - intros [[<-|[]]|H]; [left; auto | right; exact H].
+  - intros [[_ ->]|H]; [left; left; reflexivity | right; exact H].
+  - intros [[]|H]; right; exact H.
+  - intros [[E _]|H]; [discriminate E | right; exact H].
+Qed.
